@@ -565,10 +565,10 @@ def error_paths_fail(fn, max_states=20000):
             if c.get("callee") == "p_error_set_error_p" and c.get("args") and root_var(c["args"][0]) == ep:
                 setat = line(c)
             elif c.get("callee") and any(strip_casts(a) is not None and strip_casts(a)["k"] == "ref" and strip_casts(a)["name"] == ep for a in c.get("args", ())):
-                passed = passed + ((guards.key(c), line(c)),)          # a callee that reports through the same argument when it fails
+                passed = passed | {(guards.key(c), line(c))}           # a callee that reports through the same argument when it fails
         if stmt["k"] == "ret":
             if setat is None:
-                for (k_, ln_) in passed:
+                for (k_, ln_) in sorted(passed):
                     failed = guards.lookup(facts, k_) == 0 or any(fop == "=:" and fv == k_ and guards.lookup(facts, fk) == 0 for (fk, fop, fv) in facts)
                     if failed:
                         setat = ln_
@@ -586,7 +586,7 @@ def error_paths_fail(fn, max_states=20000):
         f2 = guards.edge_assume(st[0], b, on)
         return None if f2 is None else (f2, st[1], st[2])
     try:
-        Flow(fn, [(guards.EMPTY, None, ())], on_stmt, on_edge, max_states=max_states).run()
+        Flow(fn, [(guards.EMPTY, None, frozenset())], on_stmt, on_edge, max_states=max_states).run()
     except AnalysisBroken:
         return 0, []
     seen = set()
@@ -617,3 +617,36 @@ def check_error_contract(rep, rule, prog, units, floor):
                "already cleaned up (or never finished)" % (bad[0][1], bad[0][0].name, bad[0][2], bad[0][3]), bad[0][1] if bad else anchor.loc[0])
     if total < floor:
         raise AnalysisBroken("error contract: only %d error-reporting paths found in %s (expected at least %d)" % (total, ", ".join(units), floor))
+
+
+ZERO_OR_MINUS1 = ("setsockopt", "getsockopt", "bind", "listen", "shutdown", "getsockname", "getpeername", "connect", "fcntl", "ftruncate", "fstat", "munmap",
+                  "sem_close", "sem_unlink", "sem_post", "sem_wait", "shm_unlink", "close", "closedir", "pthread_mutex_lock", "pthread_mutex_unlock")
+FD_OR_MINUS1 = ("socket", "accept", "accept4", "shm_open", "open", "dup")
+
+
+def result_tests(unit):
+    """Comparisons of a libc call's result with a constant, for calls that return 0 (or a descriptor) on success and -1 on failure: the
+    test must put 0 on the success side.  (`setsockopt (...) <= 0` reads a success as a failure: the option is set in the kernel and not
+    recorded in the object; `socket (...) <= 0` loses descriptor 0.)  -> (tests seen, [(function, node, text)])"""
+    OKZ = {("<", 0), ("==", -1), ("!=", 0), ("==", 0), (">=", 0), ("!=", -1), (">", -1), ("<=", -1)}
+    OKFD = {("<", 0), ("==", -1), (">=", 0), ("!=", -1), (">", -1), ("<=", -1)}
+    FLIP = {"<": ">", ">": "<", "<=": ">=", ">=": "<=", "==": "==", "!=": "!="}
+    seen, bad = 0, []
+    for f in sorted(unit.functions.values(), key=lambda f_: f_.loc[0]):
+        for (b, i, n) in f.nodes(elsewhere=True):
+            if n["k"] != "bin" or n["op"] not in FLIP:
+                continue
+            for s_, o_ in (("l", "r"), ("r", "l")):
+                e = strip_casts(n[s_])
+                if e is not None and e["k"] == "asg":
+                    e = strip_casts(e["r"])
+                if e is None or e["k"] != "call" or cv(n[o_]) is None:
+                    continue
+                cn = e.get("callee")
+                if cn not in ZERO_OR_MINUS1 and cn not in FD_OR_MINUS1:
+                    continue
+                seen += 1
+                op = n["op"] if s_ == "l" else FLIP[n["op"]]
+                if (op, cv(n[o_])) not in (OKZ if cn in ZERO_OR_MINUS1 else OKFD):
+                    bad.append((f, n, "%s (...) %s %d" % (cn, op, cv(n[o_]))))
+    return seen, bad
